@@ -143,6 +143,11 @@ def run_config(chk, config):
             if len(reads) < 4 or not pushes:
                 continue
             vi, p = result_parts(pushes[-1][2])
+            o1n = next(iter(reads[0][3].lin.t))
+            if b.bitfacts.get((o1n, 1)) is True and eng.ent(b, c_eq(reads[2][3].lin, Lin.const(0))):
+                hid["hbit"] = hid.get("hbit", 0) + 1
+                if not (vi == 0 and tables.variant_name(eng, p) == "Hidden"):
+                    hid["bad"].append("an AVP with the H bit (vendor id 0) is not decoded to Ok(Hidden): %s" % (tables.variant_name(eng, p),))
             if vi == 0 and tables.variant_name(eng, p) == "Hidden":
                 hid["n"] += 1
                 hv = p.variants[p.vidx.c][0]
